@@ -162,6 +162,47 @@ impl<SystemType : System> CurrentFileStates<SystemType> {
             res matches Ok(c) ==> old(w).files.contains_key(current_file_statesfile_path@)
                 && decodes_c(old(w).files[current_file_statesfile_path@].content) && c.inside == decode_c(old(w).files[current_file_statesfile_path@].content),
 //@ end
+
+// ---------- the in-memory table: handing a rule's entries out and taking them back ----------
+//@ extract current.rs impl /CurrentFileStates<SystemType>$/ fn insert_file_state
+//@ props C18 C07
+//@ spec
+        requires vstd::std_specs::hash::obeys_key_model::<String>(),
+        ensures final(self).inside.file_states@ == old(self).inside.file_states@.insert(target_path, file_state), final(self).path == old(self).path,
+//@ end
 }
+// ASSUMED (R8): a String key is determined by its characters; HashMap<String, V>::remove with a &str key
+uninterp spec fn skey(s: Seq<char>) -> String;
+#[verifier::external_body] proof fn skey_axioms() ensures forall|s: Seq<char>| #[trigger] skey(s)@ == s, forall|x: String| #[trigger] skey(x@) == x {}
+#[verifier::external_body]
+fn map_remove_str(m: &mut HashMap<String, FileState>, k: &str) -> (r: Option<FileState>)
+    ensures final(m)@ == old(m)@.remove(skey(k@)), r == (if old(m)@.contains_key(skey(k@)) { Some(old(m)@[skey(k@)]) } else { None::<FileState> }),
+{ m.remove(k) }
+#[verifier::external_body]
+fn map_get_str<'a>(m: &'a mut HashMap<String, FileState>, k: &str) -> (r: Option<&'a FileState>)
+    ensures final(m)@ == old(m)@, r == (if old(m)@.contains_key(skey(k@)) { Some(&old(m)@[skey(k@)]) } else { None::<&FileState> }),
+{ m.get(k) }
+impl FileState {
+    // ASSUMED here, PROVED in unit D (FileState::empty: timestamp 0, hash of the empty content, not executable)
+    #[verifier::external_body] fn empty() -> (r: FileState) ensures r.timestamp == 0, !r.executable { unimplemented!() }
+    // ASSUMED (R8): the derived Clone copies
+    #[verifier::external_body] fn clone(&self) -> (r: FileState) ensures r == *self { unimplemented!() }
+}
+// closure #1 of CurrentFileStates::take_blob: the entry of one path is taken OUT of the table (take_blob applies it to every path,
+// through Blob::from_paths -- iterator map/collect over an FnMut, outside Verus' reach: R4)
+//@ extract current.rs impl /CurrentFileStates<SystemType>$/ fn take_blob closure 1
+//@ props C18 C07
+//@ sig fn take_one<SystemType: System>(this: &mut CurrentFileStates<SystemType>, path: &str) -> (res: FileState)
+//@ rewrite * /self\.inside\.file_states\.(remove|get)\(path\)/ => map_\1_str(&mut this.inside.file_states, path)
+//@ spec
+    ensures
+        // what a rule's thread is handed is no longer remembered by the table: a rule that then fails (its blob is not handed back)
+        // leaves nothing remembered about its targets, whatever it did to them                                       //# O-H-take-forgets [C18,C07]
+        !final(this).inside.file_states@.contains_key(skey(path@)),
+        final(this).inside.file_states@ == old(this).inside.file_states@.remove(skey(path@)), final(this).path == old(this).path,
+        // the entry handed out is the remembered one, or the empty state                                              //# O-H-take-entry [C18]
+        old(this).inside.file_states@.contains_key(skey(path@)) ==> res == old(this).inside.file_states@[skey(path@)],
+        !old(this).inside.file_states@.contains_key(skey(path@)) ==> res.timestamp == 0 && !res.executable,
+//@ end
 } // verus!
 fn main() {}
